@@ -139,7 +139,7 @@ fn authorize_partial(req: &J) -> J {
 fn tpe_views(req: &J) -> J {
     use cedar_policy::{EntityId, PartialEntities, PartialEntityUid, PartialRequest, PolicyId, Schema};
     let (schema, _) = match Schema::from_cedarschema_str(
-        "entity P { n: Long }; entity R; action a appliesTo { principal: P, resource: R };",
+        "entity G; entity P in [G] { n: Long }; entity R; action a appliesTo { principal: P, resource: R };",
     ) {
         Ok(s) => s,
         Err(e) => return json!({"input_error": e.to_string()}),
@@ -217,6 +217,25 @@ fn tpe_views(req: &J) -> J {
         }
         Err(e) => json!({"error": e.to_string()}),
     };
+    // a concrete store that is NOT a completion of the partial one: P::"p" gets an ancestor the partial entity does not list
+    let mut extra = J::Null;
+    if req["extra_parent"].as_bool().unwrap_or(false) {
+        let ents2 = Entities::from_json_value(
+            json!([
+                {"uid": {"type": "P", "id": "p"}, "attrs": {"n": 1}, "parents": [{"type": "G", "id": "g"}]},
+                {"uid": {"type": "G", "id": "g"}, "attrs": {}, "parents": []},
+                {"uid": {"type": "R", "id": "r"}, "attrs": {}, "parents": []},
+            ]),
+            Some(&schema),
+        );
+        extra = match ents2 {
+            Ok(e2) => match resp.reauthorize(&creq, &e2) {
+                Ok(r) => json!({"decision": format!("{:?}", r.decision())}),
+                Err(e) => json!({"error": e.to_string()}),
+            },
+            Err(e) => json!({"input_error": e.to_string()}),
+        };
+    }
     let scratch = Authorizer::new().is_authorized(&creq, &pset, &entities);
     let mut srs: Vec<String> = scratch.diagnostics().reason().map(|p| p.to_string()).collect();
     srs.sort();
@@ -233,6 +252,7 @@ fn tpe_views(req: &J) -> J {
         "error_forbids": ids(resp.error_forbids().map(|p| p.to_string()).collect()),
         "residual_forbids": ids(resp.residual_forbids().map(|p| p.to_string()).collect()),
         "reauthorize": re,
+        "reauthorize_extra_parent": extra,
         "from_scratch": {"decision": format!("{:?}", scratch.decision()), "reasons": srs},
     })
 }
